@@ -211,9 +211,13 @@ def register(R):
             # (the close callback of an upload body flushes the progress still pending in its aggregator)
             'each_close_callback_invoked_exactly_once': (B(bool(each)), ['C09']),
             'underlying_closed': B(len(cl) == 1),
+            # C03: the close callbacks of an upload body flush the pending progress to the user's on_progress: if that raises
+            # (or the close of the source does), the request task must fail -- close() returns normally only if nothing raised
+            'a_raising_close_callback_is_not_swallowed': (B(not any(
+                e.extra.get('raised') is not None for e in flat(c.trace) if e.kind in ('ext', 'call'))), ['C03', 'C09']),
         }
 
-    R.contract(f'{RFC}.close', props=['C09', 'C01'], params={}, checks=close_checks,
+    R.contract(f'{RFC}.close', props=['C09', 'C01', 'C03'], params={}, checks=close_checks,
                raises={'Exception': only_propagates}, raise_when={'Exception': lambda c: None}, loops={0: trivial_loop()})
 
     # ------------------------------------------------------------------ AggregatedProgressCallback
